@@ -107,9 +107,18 @@ pub fn deser_line(l: &str) -> String {
                 }
                 let mut bad = vec![];
                 if a.starts_with("panic") { bad.push(a.clone()); }
+                let mut numeric = false;
                 for tmpl in ["{} 2", "{} to hex", "{} + 1 day", "{} + 3 days", "{} + 400 days", "{} - 1 day", "{} - 400 days", "{} - 1 month", "{} - 13 months", "{} - 1 year", "{} + 1", "{} * {}", "-{}", "{} to fraction", "{} to 3 sf", "sqrt {}", "{} == {}", "roll {}"] {
                     let r = ev_ms(&mut c.clone(), &tmpl.replace("{}", name), 40);
                     if r.starts_with("panic") { bad.push(format!("`{}`: {r}", tmpl.replace("{}", name))); }
+                    if tmpl == "{} + 1" && r.starts_with("ok") { numeric = true; }
+                }
+                if numeric {
+                    // numbers and distributions: every consumer of numerator / denominator / outcome lists
+                    for tmpl in ["log2 {}", "ln {}", "{} to float", "1 / {}", "{}^2", "{}^-1", "{} mod 3", "floor {}", "round {}", "{} to 5 dp", "{} to words", "{} to mixed_fraction", "{} / {}", "{} - {}", "abs {}", "{}!", "{} to binary", "real {}", "{} to m", "{} 1 kg", "sin {}"] {
+                        let r = ev_ms(&mut c.clone(), &tmpl.replace("{}", name), 20);
+                        if r.starts_with("panic") { bad.push(format!("`{}`: {r}", tmpl.replace("{}", name))); }
+                    }
                 }
                 if !bad.is_empty() {
                     after.push(format!("{name}:{}", bad.join(" / ")));
@@ -122,7 +131,12 @@ pub fn deser_line(l: &str) -> String {
                 Ok(Err(e)) => format!("resaveerr {e}"),
                 Err(p) => format!("resavepanic {p}"),
             };
-            format!("ok\tmaxalloc={maxa}\tuse={}\t{resave}", if after.is_empty() { "fine".to_string() } else { after.join(",") })
+            // debugging aid: HARNESS_DESER_PROBE="expr ;; expr" evaluates extra expressions in the loaded context
+            let extra = match std::env::var("HARNESS_DESER_PROBE") {
+                Ok(p) => format!("\tprobe={}", p.split(" ;; ").map(|e| ev_ms(&mut c.clone(), e, 2000)).collect::<Vec<_>>().join(" | ")),
+                Err(_) => String::new(),
+            };
+            format!("ok\tmaxalloc={maxa}\tuse={}\t{resave}{extra}", if after.is_empty() { "fine".to_string() } else { after.join(",") })
         }
         Ok(Err(e)) => format!("err {}\tmaxalloc={maxa}", if e == "failed to deserialize object" { "bad" } else if e == "I/O error" { "eof" } else { "other" }),
         Err(p) => format!("panic {}\tmaxalloc={maxa}", p.replace(['\n', '\t'], " ")),
